@@ -2,6 +2,7 @@ package main
 
 import (
 	"fmt"
+	"golang.org/x/tools/go/ssa"
 	"os"
 	"runtime/pprof"
 	"sort"
@@ -80,6 +81,49 @@ func main() {
 			}
 			for _, n := range r.Notes {
 				fmt.Println("note:", n)
+			}
+			code = 0
+		case "sticky":
+			c := loadProgram(repoDir(), mambaMod, 9)
+			E := c.Eff()
+			for _, fn := range c.Funcs {
+				if fn.Name() != "Next" || fn.Blocks == nil || !strings.Contains(c.short(fn), "itertools") {
+					continue
+				}
+				for _, b := range fn.Blocks {
+					ret, ok := b.Instrs[len(b.Instrs)-1].(*ssa.Return)
+					if !ok || len(ret.Results) != 1 {
+						continue
+					}
+					k, isK := ret.Results[0].(*ssa.Const)
+					if !isK || k.Value == nil || k.Value.ExactString() != "false" {
+						continue
+					}
+					canReach := map[*ssa.BasicBlock]bool{b: true}
+					stack := []*ssa.BasicBlock{b}
+					for len(stack) > 0 {
+						x := stack[len(stack)-1]
+						stack = stack[:len(stack)-1]
+						for _, p := range x.Preds {
+							if !canReach[p] {
+								canReach[p] = true
+								stack = append(stack, p)
+							}
+						}
+					}
+					var ws []string
+					for _, x := range fn.Blocks {
+						if !canReach[x] {
+							continue
+						}
+						for _, in := range x.Instrs {
+							if ap, bad := rootedAt(E.InstrWrites(fn, in), 0); bad {
+								ws = append(ws, E.apString(fn, ap)+"@"+c.instrPos(in))
+							}
+						}
+					}
+					fmt.Printf("%s return false at %s: %d writes %v\n", c.short(fn), c.instrPos(ret), len(ws), ws)
+				}
 			}
 			code = 0
 		case "bounds":
